@@ -21,6 +21,11 @@ pub struct Case {
     /// pending for this many ms (0 = no second run)
     #[serde(default)]
     pub delay_terminal_ms: u8,
+    /// third run: the write of one Keep Alive (chosen by `ka_pick`) stays pending for this many ms (0 = no third run)
+    #[serde(default)]
+    pub delay_ka_ms: u8,
+    #[serde(default)]
+    pub ka_pick: u8,
 }
 
 pub struct C07;
@@ -182,7 +187,8 @@ fn decide(case: &Case, out: &sim::SimOutcome, tl: &timed::Timeline, info: &mut C
     }
     // first Keep Alive that is not echoed with its own id before the next one is due
     let unechoed = v.kas.iter().find(|(t, id)| !tl.echoes.iter().any(|(te, ide)| ide == id && *te >= *t && *te < t + PERIOD)).copied();
-    let deadline = unechoed.map(|(t, _)| t + PERIOD);
+    // a client that has left before the deadline is not owed a timeout Disconnect
+    let deadline = unechoed.map(|(t, _)| t + PERIOD).filter(|d| tl.closed_at.is_none_or(|c| c > *d));
     let timed_out = v.terminal.as_ref().is_some_and(|(_, p)| is_timeout_disconnect(p));
     info.class(format!("keep_alives:{}", v.kas.len().min(6)));
 
@@ -255,8 +261,8 @@ impl Check for C07 {
         "C07"
     }
     fn strategy(&self, _tier: Tier) -> BoxedStrategy<Case> {
-        (scenario_strategy(false), any::<u64>(), prop_oneof![1 => Just(0u8), 2 => 1u8..=3, 1 => 4u8..=50], any::<u8>())
-            .prop_map(|(mut sc, select_seed, delay_terminal_ms, aim)| {
+        (scenario_strategy(false), any::<u64>(), prop_oneof![1 => Just(0u8), 2 => 1u8..=3, 1 => 4u8..=50], any::<u8>(), prop_oneof![1 => Just(0u8), 2 => 4u8..=50], any::<u8>())
+            .prop_map(|(mut sc, select_seed, delay_terminal_ms, aim, delay_ka_ms, ka_pick)| {
                 // a share of scenarios in which routing completes 1-3 ms after a keep-alive deadline: the window in
                 // which a pending timeout Disconnect meets a completing backend call
                 if aim % 4 == 0 && delay_terminal_ms > 0 {
@@ -270,7 +276,19 @@ impl Check for C07 {
                     sc.extras.clear();
                     sc = untie(sc);
                 }
-                Case { sc, select_seed, delay_terminal_ms }
+                // a share of scenarios in which one backend call completes 1-3 ms after a tick (while a Keep Alive
+                // whose write is pending is still on its way) and the next one spans the following tick
+                if aim % 4 == 1 && delay_ka_ms > 0 {
+                    sc.ack_delay_ms = 0;
+                    sc.info_delay_ms = Some(1);
+                    sc.adapters.auth_ms = 0;
+                    sc.adapters.discovery_ms = 16_000 * (1 + u32::from(aim % 2)) + u32::from(aim % 3);
+                    sc.adapters.filter_ms = 0;
+                    sc.adapters.strategy_ms = 20_000;
+                    sc.extras.clear();
+                    sc = untie(sc);
+                }
+                Case { sc, select_seed, delay_terminal_ms, delay_ka_ms, ka_pick }
             })
             .boxed()
     }
@@ -287,7 +305,45 @@ impl Check for C07 {
             info.class("client_information:never");
         }
         let v = decide(case, &out, &tl, &mut info);
-        if !matches!(v, Verdict::Pass) || case.delay_terminal_ms == 0 {
+        if !matches!(v, Verdict::Pass) {
+            return (v, info);
+        }
+        // third run: the write of one Keep Alive stays pending for a moment (the client gets it that much later and
+        // reacts that much later). Nothing the client does comes within 100 ms of a deadline in either run, so it
+        // must receive the same packets and the connection must end the same way.
+        let echo_safe = case.sc.echo.iter().all(|e| !matches!(e, Echo::Delay(x) if *x > 15_900));
+        let ka_positions: Vec<usize> = out.cb.iter().enumerate().filter(|(_, (_, p))| matches!(p, Pkt::CfgKeepAliveCb { .. })).map(|(i, _)| i).collect();
+        // the pending write also keeps the server from reading for that long: whatever the client sends meanwhile
+        // is handled up to 50 ms later, so nothing that starts or ends a backend call may lie in the last 100 ms
+        // before a tick either
+        let mut instants: Vec<u64> = tl.echoes.iter().map(|(t, _)| *t).collect();
+        instants.extend(tl.ack_due);
+        if let Some(i) = tl.info_due {
+            let a = &case.sc.adapters;
+            let d = i + u64::from(a.discovery_ms);
+            let f = d + u64::from(a.filter_ms);
+            instants.extend([i, d, f, f + u64::from(a.strategy_ms)]);
+        }
+        instants.extend(case.sc.extras.iter().filter_map(|e| tl.ack_due.map(|a| a + u64::from(e.after_ack_ms))));
+        let clear_of_ticks = instants.iter().all(|t| t % PERIOD < PERIOD - 100);
+        if case.delay_ka_ms > 0 && echo_safe && clear_of_ticks && !ka_positions.is_empty() {
+            let k = ka_positions[crate::runner::idx(u16::from(case.ka_pick) << 8, ka_positions.len())];
+            let mut wscript = vec![sim::WStep::All; k];
+            wscript.push(sim::WStep::PendingFor(u16::from(case.delay_ka_ms)));
+            let (out3, _) = timed::run(&case.sc, &TransportScript { wscript, rscript: vec![] }, &SegPlan::new(), case.select_seed);
+            info.class("third_run:keep_alive_write_pending");
+            let seq = |o: &sim::SimOutcome| -> Vec<String> { o.cb.iter().map(|(_, p)| crate::checks::c08::stable(p)).collect() };
+            if let sim::ServerEnd::Panicked { msg } = &out3.end {
+                return (Verdict::Fail { sig: "panic".into(), msg: format!("handler panicked: {msg}") }, info);
+            }
+            if out3.stream_broken.is_some() || seq(&out) != seq(&out3) || out.returned_ok() != out3.returned_ok() {
+                return (
+                    Verdict::Fail { sig: "keep-alive-bookkeeping-depends-on-write-timing".into(), msg: format!("with the write of packet #{k} (a Keep Alive) pending for {} ms the client received {:?} (end {}), otherwise {:?} (end {}); stream {:?}", case.delay_ka_ms, seq(&out3), out3.end_label(), seq(&out), out.end_label(), out3.stream_broken) },
+                    info,
+                );
+            }
+        }
+        if case.delay_terminal_ms == 0 {
             return (v, info);
         }
         // second run: the terminal packet's write stays pending for a moment. Whatever completes meanwhile, the
